@@ -32,13 +32,17 @@ from ..core import ROOT, Check, Driver, HarnessError, ddmin, proof_stage
 PROP = "C08"
 DRIVER = Driver("driver_c08", "Drivers/C08.lean")
 BYTES_SIG = "C08:bytes-undecodable-hex-collision"
-SPEC_KINDS = ("canon", "sep", "facade")
+TEMPLATE_NAME_SIG = "C08:parameter-named-template"      # repaired by proposed_fixes/pending/C08_parameter_named_template.diff
+SET_ORDER_SIG = "D50:set-argument-order"                 # repaired by proposed_fixes/pending/D50_set_argument_order.diff
+NOSELF_REUSE_SIG = "C08:noself-decorator-reuse"         # repaired by proposed_fixes/pending/C08_noself_decorator_reuse.diff
+SPEC_KINDS = ("canon", "sep", "facade", "flight")
 BINDS = {"b": "bind", "p": "bind_partial", "d": "bind+apply_defaults", "q": "bind_partial+apply_defaults"}
 
 TRUSTED = [
     "Lean 4.33.0 kernel; axioms of every theorem audited to be within {propext, Classical.choice, Quot.sound}",
     "hand-written model lean/CashewsVerif/Model/Key.lean of cashews/key.py, cashews/formatter.py (plain {name} fields, "
-    "value types str/int/bool/None/bytes/tuple/dict), cashews/key_context.py and of inspect.Signature.bind/bind_partial/"
+    "value types str/int/bool/None/bytes/tuple/dict/set), the template noself derives, the single-flight key of thunder_protection, "
+    "cashews/key_context.py and of inspect.Signature.bind/bind_partial/"
     "apply_defaults, tied to the code by this run's input correspondence (keys, template strings and all four bindings compared)",
     "CPython: str.format / string.Formatter parsing of the template text, str(int), bytes.decode/hex, sorted() on str keys "
     "(their models are compared with the real thing on every value of the run, not proved about CPython)",
@@ -60,7 +64,13 @@ PARTIAL = (
     "zero-width and control characters, lossy re-encodings, length, non-BMP, homoglyphs) plus random strings over a code-point palette for the "
     "rendering of single values - a renderer that merges two strings outside these classes is only met by chance. Inside containers "
     "(tuple items beyond a 1-tuple, dict and **kwargs values) the field text contains ':', so a merging renderer there is reported as a broken "
-    "correspondence with the model, not as a violated separation."
+    "correspondence with the model, not as a violated separation. "
+    "Receivers: a function whose first parameter is called self / cls and an object with __str__ passed for it stand for methods; real bound "
+    "methods, classmethod objects and class bodies are not built. Overlap: pairs of calls (the second one started while the first one is parked "
+    "inside the function body) through cache / early / soft with the default protected=True on the in-memory backend; lock=True, more than "
+    "two overlapping calls, calls overlapping a recalculation of early / soft and overlap across event loops are not exercised. Sets: the "
+    "permutation invariance of a set's text is proved for a top-level set (like for dicts); sets of at most 3 small elements are generated, "
+    "frozensets are not (the repaired formatter renders them like sets)."
 )
 
 
@@ -80,9 +90,18 @@ def model_key(hexkey: str) -> str:
     return "E:TypeError" if hexkey == "E" else "K:" + bytes.fromhex(hexkey).decode("utf-8")
 
 
+DECORATED = ("decorator", "noself")
+
+
 def run_impl(case) -> dict:
-    if case["via"] == "decorator":
-        return vtime.run(kc.run_decorated, case)
+    if case["via"] in DECORATED:
+        out = vtime.run(kc.run_decorated, case)
+        if case.get("flight") and not out.get("decor_error"):
+            try:
+                out["flight"] = vtime.run(kc.run_flight, case)
+            except kc.FlightStuck as exc:
+                raise HarnessError(str(exc)) from exc
+        return out
     return kc.run_direct(case)
 
 
@@ -122,6 +141,19 @@ def non_ascii_text(tok: str) -> bool:
             except UnicodeDecodeError:
                 pass
     return False
+
+
+def set_orders(call) -> list:
+    """the set arguments of a call with their element order (two forms of one call that differ here hold equal sets
+    that iterate differently)"""
+    vals = list(call["args"]) + [v for _, v in call["kwargs"]]
+    return sorted(v for v in vals if any(t.startswith("e:") for t in v.split()))
+
+
+def differ_in_set_order(c1, c2) -> bool:
+    """both calls pass the same set arguments, at least one of them with its elements in another order"""
+    a, b = set_orders(c1), set_orders(c2)
+    return a != b and sorted(kc.canon(kc.dec(v)) for v in a) == sorted(kc.canon(kc.dec(v)) for v in b)
 
 
 def explained_by_bytes(v1, v2) -> bool:
@@ -165,8 +197,7 @@ def group_bounds(case):
     for g in case["groups"]:
         forms = []
         for c in g["calls"]:
-            args = tuple(kc.dec(x) for x in c["args"])
-            kwargs = {n: kc.dec(v) for n, v in c["kwargs"]}
+            args, kwargs = kc.call_values(case, c)
             try:
                 ba = psig.bind(*args, **kwargs)
             except TypeError:
@@ -205,7 +236,7 @@ def evaluate(case, impl, model, stats=None) -> list[dict]:
         keys[(gi, ci)] = ic["key"]
         if ic["key"] != mk:
             fails.append({"kind": "model", "at": [gi, ci], "detail": f"key: impl {ic['key']!a} model {mk!a} for call {pretty_call(c)}"})
-        if case["via"] != "decorator":
+        if case["via"] not in DECORATED:
             for f in "bpdq":
                 if ic[f] != mc[f]:
                     fails.append({"kind": "inspect", "at": [gi, ci],
@@ -239,9 +270,15 @@ def evaluate(case, impl, model, stats=None) -> list[dict]:
         if len(g["calls"]) > 1:
             bump("call_form_pairs_compared", len(g["calls"]) - 1)
         bad = [ci for ci, k in enumerate(ks) if k != ks[0] or not k.startswith("K:")]
-        if bad:
+        if bad and not ks[bad[0]].startswith("K:"):
+            ci = bad[0]
+            named = any(n == "template" for _, n, _ in case["sig"]) and ks[ci] == "E:TypeError"
+            fails.append({"kind": "canon", "at": [gi, 0, ci], "signature": TEMPLATE_NAME_SIG if named else None,
+                          "detail": f"a call that binds gets no key: {pretty_call(g['calls'][ci])} -> {ks[ci]!a}"})
+        elif bad:
             ci = bad[0]
             fails.append({"kind": "canon", "at": [gi, 0, ci],
+                          "signature": SET_ORDER_SIG if differ_in_set_order(g["calls"][0], g["calls"][ci]) else None,
                           "detail": f"same bound arguments, different keys: {pretty_call(g['calls'][0])} -> {ks[0]!a} but {pretty_call(g['calls'][ci])} -> {ks[ci]!a}"})
     # --- the property, part 2: different bound arguments (in the stated domain) have different keys
     fields = [t for k, t in (tmpl_items or []) if k == "F"]
@@ -275,7 +312,7 @@ def evaluate(case, impl, model, stats=None) -> list[dict]:
                                   "detail": f"bound arguments differ in {typed} but share the key {ki!a}: "
                                             f"{pretty_call(case['groups'][i]['calls'][0])} / {pretty_call(case['groups'][j]['calls'][0])}"})
     # --- the property at the facade: a decorated call never returns another tuple's result
-    if case["via"] == "decorator":
+    if case["via"] in DECORATED:
         writer = {}
         for (gi, ci, c), ic in zip(flat, impl["calls"]):
             exp = kc.expected_result(case, c)
@@ -283,7 +320,11 @@ def evaluate(case, impl, model, stats=None) -> list[dict]:
                 continue
             if ic["gets"]:
                 writer.setdefault(ic["gets"][0], gi)
-            if ic["result"] != exp:
+            if ic["result"].startswith("R:SIB:"):
+                fails.append({"kind": "facade", "at": [gi, ci], "signature": NOSELF_REUSE_SIG,
+                              "detail": f"decorated call {pretty_call(c)} returned {ic['result']!a}, the result of another function decorated "
+                                        f"with the same noself(cache)(ttl=..) object (key read: {ic['key']!a})"})
+            elif ic["result"] != exp:
                 other = writer.get(ic["gets"][0]) if ic["gets"] else None
                 sig = None
                 if other is not None and other != gi and bounds[other] and bounds[gi]:
@@ -298,12 +339,44 @@ def evaluate(case, impl, model, stats=None) -> list[dict]:
             bump("decorated_calls")
             if ic["ran"] == 0:
                 bump("decorated_cache_hits")
+    # --- the same under overlap (single flight): a call that starts while another call is still executing the function
+    # gets its own result whenever the two cache keys differ; the model: the decorator's single-flight key is the cache
+    # key without its prefix (`flight_key_shared_iff_cache_key_shared`), so two calls share one execution iff they
+    # share the cache key
+    idx = {(gi, ci): k for k, (gi, ci, _) in enumerate(flat)}
+    for fl in impl.get("flight") or []:
+        a, b = tuple(fl["a"]), tuple(fl["b"])
+        ca, cb = case["groups"][a[0]]["calls"][a[1]], case["groups"][b[0]]["calls"][b[1]]
+        ka, kb = keys[a], keys[b]
+        ea, eb = kc.expected_result(case, ca), kc.expected_result(case, cb)
+        if ea is None or eb is None or not (ka.startswith("K:") and kb.startswith("K:")):
+            continue
+        bump("overlapping_call_pairs")
+        if ka != kb:
+            bump("overlapping_pairs_with_different_keys")
+            if fl["second_reached_body_while_first_parked"]:
+                bump("overlapping_pairs_both_inside_the_function")
+            if fl["ra"] != ea or fl["rb"] != eb:
+                fails.append({"kind": "flight", "at": [a[0], a[1], b[0], b[1]],
+                              "detail": f"{pretty_call(cb)} (cache key {kb!a}) was started while {pretty_call(ca)} (cache key {ka!a}) was "
+                                        f"still executing and returned {fl['rb']!a}, its own result is {eb!a} (first call returned "
+                                        f"{fl['ra']!a}; the function ran {fl['ran']} time(s))"})
+                continue
+        mka, mkb = model["calls"][idx[a]]["key"], model["calls"][idx[b]]["key"]
+        joined_model = mka == mkb
+        joined_impl = fl["ran"] == 1
+        if joined_impl:
+            bump("overlapping_pairs_joined_into_one_execution")
+        if joined_model != joined_impl:
+            fails.append({"kind": "flightmodel", "at": [a[0], a[1], b[0], b[1]],
+                          "detail": f"overlapping calls {pretty_call(ca)} / {pretty_call(cb)}: the function ran {fl['ran']} time(s), the model's "
+                                    f"single-flight keys are {'equal' if joined_model else 'different'}"})
     return fails
 
 
 def add_direct_keys(case, impl):
     """for decorated cases: what get_cache_key itself says for the same calls with the decorator's template"""
-    if case["via"] != "decorator" or impl.get("decor_error"):
+    if case["via"] not in DECORATED or impl.get("decor_error"):
         return
     from cashews.key import get_cache_key
 
@@ -312,8 +385,7 @@ def add_direct_keys(case, impl):
     with kc._Ctx(case.get("ctx")):
         for g in case["groups"]:
             for c in g["calls"]:
-                args = tuple(kc.dec(x) for x in c["args"])
-                kwargs = {n: kc.dec(v) for n, v in c["kwargs"]}
+                args, kwargs = kc.call_values(case, c)
                 try:
                     impl["calls"][i]["direct"] = "K:" + get_cache_key(func, impl["tmpl"], args, kwargs)
                 except Exception as exc:  # noqa: BLE001
@@ -346,6 +418,12 @@ def restrict(case, fail) -> dict:
         c["groups"] = [{"calls": [g["calls"][at[1]], g["calls"][at[2]]]}]
     elif fail["kind"] == "sep":
         c["groups"] = [{"calls": [c["groups"][at[0]]["calls"][0]]}, {"calls": [c["groups"][at[1]]["calls"][0]]}]
+    elif fail["kind"] in ("flight", "flightmodel"):
+        ga, gb = c["groups"][at[0]], c["groups"][at[2]]
+        if at[0] == at[2]:
+            c["groups"] = [{"calls": [ga["calls"][at[1]], ga["calls"][at[3]]]}]
+        else:
+            c["groups"] = [{"calls": [ga["calls"][at[1]]]}, {"calls": [gb["calls"][at[3]]]}]
     elif fail["kind"] == "tmpl":
         c["groups"] = []
     return c
@@ -407,6 +485,12 @@ def shrink(case, fail) -> dict:
         d["via"] = "direct"
         if still_fails(d, kind):
             c = d
+    for flag in ("flight", "recv", "reuse"):
+        if c.get(flag) and not (flag == "flight" and kind in ("flight", "flightmodel")):
+            d = copy.deepcopy(c)
+            del d[flag]
+            if still_fails(d, kind):
+                c = d
     idx = list(range(len(c["sig"])))
     if len(idx) >= 2:
         base = c
@@ -523,7 +607,14 @@ def pretty_sig(case) -> str:
     extra = ""
     if ctx:
         extra = " under key_context(" + ", ".join(([("rewrite=True")] if ctx["rewrite"] else []) + [f"{n}={kc.dec(v)!a}" for n, v in ctx["vals"]]) + ")"
-    return f"def {case['names']['name']}({params})" + extra
+    how = {"noself": " through noself(cache)(ttl=..)", "decorator": " through cache(ttl=..)"}.get(case["via"], "")
+    if case.get("flight") and how:
+        how = how.replace("cache(", {"cache": "cache(", "early": "cache.early(", "soft": "cache.soft("}[case["flight"]])
+    if case.get("reuse"):
+        how += ", after the same decorator object was applied to a function sib with the same signature"
+    if case.get("recv") == "obj":
+        how += ", first argument passed as an object with that __str__"
+    return f"def {case['names']['name']}({params})" + extra + how
 
 
 def report(chk: Check, case, fail, origin):
@@ -540,14 +631,16 @@ def report(chk: Check, case, fail, origin):
         "replay_cmd": "./check C08 --replay <this file>",
     }
     kind = f["kind"]
-    if kind in ("canon", "sep", "facade"):
-        what = {"canon": "two forms of the same call get different cache keys",
+    if kind in SPEC_KINDS:
+        what = {"canon": "a call that binds gets no key" if "gets no key" in f["detail"] else "two forms of the same call get different cache keys",
                 "sep": "two calls with different bound arguments get the same cache key",
-                "facade": "a @cache-decorated call used another key / returned another call's result"}[kind]
+                "facade": "a @cache-decorated call used another key / returned another call's result",
+                "flight": "a decorated call overlapping a call with a different cache key received that call's result"}[kind]
         chk.violation(f"{what}: {pretty_sig(small)}, template {impl.get('tmpl')!a}: {f['detail']}", replay, signature=f.get("signature"))
     else:
         what = {"model": "get_cache_key differs from the model Key.cacheKey",
                 "inspect": "inspect.Signature binding differs from the model Key.bind",
+                "flightmodel": "which overlapping calls share one execution differs from the model (single-flight key = cache key without prefix)",
                 "tmpl": "generated key template differs from the model Key.autoTemplate"}[kind]
         chk.violation(f"correspondence broken ({what}) but the property holds on this case: {pretty_sig(small)}: {f['detail']}",
                       dict(replay, broken=what), signature=None, no_input=True)
@@ -593,6 +686,22 @@ def gen_cases_for_sig(rng, sig, names, rich: bool):
         out.append(case)
         if sgroups and ("auto" in t or kc.is_separated(t["items"])):
             out.append(dict(case, via="direct" if via == "default" else via, ctx=None, groups=copy.deepcopy(sgroups), stream="scalar"))
+            if via == "decorator" and rng.random() < 0.5:
+                # the same calls in overlapping pairs (single flight)
+                out[-1]["flight"] = rng.choice(["cache", "early", "soft"])
+    # through noself(cache)(...): the template is the generated one without the parameter named `self`
+    receiver = bool(sig) and sig[0][0] == "p" and sig[0][1] in kc.RECEIVERS
+    if rng.random() < (0.8 if receiver else 0.12):
+        for g, stream in ((groups, "wellformed"), (sgroups, "scalar")):
+            if g:
+                out.append({"names": names, "sig": sig, "tmpl": {"auto": ["self"]}, "ctx": None, "via": "noself", "prefix": "",
+                            "groups": copy.deepcopy(g), "stream": stream})
+                if receiver and rng.random() < 0.5:
+                    out[-1]["recv"] = "obj"
+                if rng.random() < 0.3:
+                    out[-1]["reuse"] = True
+                if stream == "scalar" and rng.random() < 0.5:
+                    out[-1]["flight"] = rng.choice(["cache", "early", "soft"])
     # malformed stream
     mgroups = []
     pnames = [n for _, n, _ in sig]
@@ -646,6 +755,105 @@ def probe_cases():
                 for via in ("direct", "decorator"):
                     out.append({"names": names, "sig": sig, "tmpl": t, "ctx": None, "via": via, "prefix": "",
                                 "groups": copy.deepcopy(groups), "stream": "probe"})
+    return out
+
+
+def name_cases(rng, rich: bool):
+    """the parameter-name stream (fixed): a receiver (`self`, `cls` or none) followed by parameters whose names are pieces
+    of the receivers' names, extend them, or are prefixes of each other; calls that differ in exactly one of them; through
+    noself(cache)(...), plain @cache, and get_cache_key with the generated template / with `self` excluded"""
+    out = []
+    e = kc.enc
+    pieces = kc.RECEIVER_PIECES + ["self_", "_self", "myself", "cls_", "a", "ab", "abc"]
+    for recv in ("self", "cls", None):
+        names = {"module": "m", "name": "f", "qualname": "K.f" if recv else "f"}
+        for i, n in enumerate(pieces):
+            other = pieces[(i + 5) % len(pieces)]
+            if not rich and recv is None and i % 3:
+                continue
+            sig = ([["p", recv, None]] if recv else []) + [["p", n, None], ["k", other, e("dflt")]]
+            head = [e("eu")] if recv else []
+            head2 = [e("us")] if recv else []
+            groups = [{"calls": [{"args": head + [e("a.txt")], "kwargs": []},
+                                 {"args": head, "kwargs": [[n, e("a.txt")]]},
+                                 {"args": head + [e("a.txt")], "kwargs": [[other, e("dflt")]]}]},
+                      {"calls": [{"args": head + [e("b.txt")], "kwargs": []}]},
+                      {"calls": [{"args": head + [e("b.txt")], "kwargs": [[other, e("latin1")]]}]}]
+            if recv:
+                groups.append({"calls": [{"args": head2 + [e("a.txt")], "kwargs": []}]})
+            for via, tmpl in (("noself", {"auto": ["self"]}), ("decorator", {"auto": []}), ("direct", {"auto": ["self"]}), ("direct", {"auto": [n]})):
+                if via == "direct" and not rich and i % 2:
+                    continue
+                c = {"names": names, "sig": sig, "tmpl": tmpl, "ctx": None, "via": via, "prefix": "",
+                     "groups": copy.deepcopy(groups), "stream": "names"}
+                if recv and via != "direct" and i % 2 == 0:
+                    c["recv"] = "obj"
+                if via != "direct" and i % 4 == 0:
+                    c["flight"] = ("cache", "early", "soft")[(i // 4) % 3]
+                if via == "noself" and i % 3 == 0:
+                    c["reuse"] = True
+                out.append(c)
+    # a parameter called like the first parameter of cashews.formatter.default_format(template, **values)
+    e2 = kc.enc
+    for sig, groups in (
+        ([["p", "template", None]], [{"calls": [{"args": [e2("x")], "kwargs": []}, {"args": [], "kwargs": [["template", e2("x")]]}]},
+                                     {"calls": [{"args": [e2("y")], "kwargs": []}]}]),
+        ([["p", "self", None], ["p", "a", None], ["k", "template", e2("t.html")]],
+         [{"calls": [{"args": [e2("u"), e2(1)], "kwargs": []}, {"args": [e2("u"), e2(1)], "kwargs": [["template", e2("t.html")]]}]},
+          {"calls": [{"args": [e2("u"), e2(1)], "kwargs": [["template", e2("s.html")]]}]}]),
+        ([["p", "values", None], ["p", "format_string", None], ["w", "kwargs", None]],
+         [{"calls": [{"args": [e2(1), e2("x")], "kwargs": []}, {"args": [], "kwargs": [["format_string", e2("x")], ["values", e2(1)]]}]},
+          {"calls": [{"args": [e2(1), e2("y")], "kwargs": []}]}]),
+    ):
+        recv = sig[0][1] == "self"
+        for via, tmpl in (("direct", {"auto": []}), ("decorator", {"auto": []}), ("noself", {"auto": ["self"]})):
+            out.append({"names": {"module": "m", "name": "f", "qualname": "K.f" if recv else "f"}, "sig": sig, "tmpl": tmpl, "ctx": None,
+                        "via": via, "prefix": "", "groups": copy.deepcopy(groups), "stream": "names"})
+    return out
+
+
+def flight_cases(rng, rich: bool):
+    """the overlap stream (fixed): methods on two receivers and plain functions through cache / early / soft (single
+    flight is on by default), plain and through noself, generated and explicit templates, with and without a prefix;
+    every two groups are run as an overlapping pair, and so are two forms of one call"""
+    out = []
+    e = kc.enc
+
+    def call(args=(), **kw):
+        return {"args": [e(x) for x in args], "kwargs": [[n, e(v)] for n, v in kw.items()]}
+
+    S, P, Q = ["p", "self", None], ["p", "path", None], ["k", "q", e(1)]
+    meth = [{"calls": [call(["eu", "/users"]), call(["eu"], path="/users")]}, {"calls": [call(["us", "/users"])]},
+            {"calls": [call(["eu", "/orders"])]}]
+    meth_q = [{"calls": [call(["eu", "/u"]), call(["eu", "/u"], q=1), call(["eu"], q=1, path="/u")]}, {"calls": [call(["us", "/u"])]},
+              {"calls": [call(["eu", "/u"], q=2)]}, {"calls": [call(["us", "/u"], q=2)]}]
+    plain = [{"calls": [call([1, "x"]), call([1], b="x"), call(b="x", a=1)]}, {"calls": [call([1, "y"])]}, {"calls": [call([True, "x"])]}]
+    star = [{"calls": [call(["a", "b"])]}, {"calls": [call(["a"])]}, {"calls": [call(["a", "c"])]}]
+    kws = [{"calls": [call(["eu"], x=1, y=2), call(["eu"], y=2, x=1)]}, {"calls": [call(["us"], x=1, y=2)]}, {"calls": [call(["eu"], x=1)]}]
+    table = [
+        ([S, P], {"auto": []}, "decorator", meth, "K.get"),
+        ([S, P], {"auto": ["self"]}, "noself", meth, "K.get"),
+        ([S, P, Q], {"auto": []}, "decorator", meth_q, "K.get"),
+        ([S, P, Q], {"auto": ["self"]}, "noself", meth_q, "K.get"),
+        ([S, P], {"items": [["L", "api:"], ["F", "self"], ["L", ":"], ["F", "path"]]}, "decorator", meth, "K.get"),
+        ([S, P], {"items": [["L", "api:"], ["F", "path"]]}, "decorator", meth, "K.get"),
+        ([["p", "cls", None], P], {"auto": []}, "decorator", meth, "K.get"),
+        ([["p", "cls", None], P], {"auto": ["self"]}, "noself", meth, "K.get"),
+        ([["p", "a", None], ["p", "b", None]], {"auto": []}, "decorator", plain, "f"),
+        ([["p", "a", None], ["p", "b", None]], {"items": [["F", "a"], ["L", ":"], ["F", "b"]]}, "decorator", plain, "f"),
+        ([["s", "args", None]], {"auto": []}, "decorator", star, "f"),
+        ([S, ["w", "kwargs", None]], {"auto": []}, "decorator", kws, "K.get"),
+        ([S, ["w", "kwargs", None]], {"auto": ["self"]}, "noself", kws, "K.get"),
+    ]
+    for sig, tmpl, via, groups, qual in table:
+        for kind in ("cache", "early", "soft"):
+            for recv in (("obj", None) if sig[0][1] in kc.RECEIVERS else (None,)):
+                for prefix in (("", "v1") if "items" in tmpl and via == "decorator" else ("",)):
+                    c = {"names": {"module": "m", "name": qual.split(".")[-1], "qualname": qual}, "sig": sig, "tmpl": tmpl, "ctx": None,
+                         "via": via, "prefix": prefix, "groups": copy.deepcopy(groups), "stream": "flight", "flight": kind}
+                    if recv:
+                        c["recv"] = recv
+                    out.append(c)
     return out
 
 
@@ -808,10 +1016,16 @@ def run(chk: Check) -> int:
     for c in text_cases(rng, chk.thorough):
         cases.append(c)
         origin.append("text")
+    for c in name_cases(rng, chk.thorough):
+        cases.append(c)
+        origin.append("names")
+    for c in flight_cases(rng, chk.thorough):
+        cases.append(c)
+        origin.append("flight")
     sig_count = 0
     for shape, rep in chosen:
-        first_self = shape[0] > 0 and rng.random() < 0.12
-        sig = kc.make_sig(rng, shape, first_self=first_self, alt_names=rng.random() < 0.3)
+        first_self = rng.choice(["self", "self", "self", "cls"]) if shape[0] > 0 and rng.random() < 0.2 else False
+        sig = kc.make_sig(rng, shape, first_self=first_self, alt_names=rng.random() < 0.3, pool_names=rng.random() < 0.4)
         names = {"module": rng.choice(["m", "pkg.mod"]), "name": "f", "qualname": "K.f" if first_self else "f"}
         sig_count += 1
         for c in gen_cases_for_sig(rng, sig, names, rich=chk.thorough):
@@ -836,7 +1050,7 @@ def run(chk: Check) -> int:
             interesting = {k for k in local if k in (
                 "formatter_slow_path", "keyword_only_call_defaults_applied", "raw_kwargs_fallback",
                 "separation_pairs_checked", "call_form_pairs_compared", "unbindable_positional_call_typeerror",
-                "decorated_cache_hits", "separation_pairs_lookalike_text")}
+                "decorated_cache_hits", "separation_pairs_lookalike_text", "overlapping_call_pairs")}
             if interesting:
                 distinct.add(json.dumps([case["sig"], case["tmpl"], case["ctx"], case["via"], case["groups"]], sort_keys=True))
             hist["via"][case["via"]] = hist["via"].get(case["via"], 0) + 1
@@ -869,7 +1083,8 @@ def run(chk: Check) -> int:
         report(chk, case, f, org)
         if len(chk.violations) > before:
             found += 1
-            seen_sig.add((f["kind"], "reported"))
+            if not f.get("signature"):      # a finding with a signature of its own does not stand for the other failures of its kind
+                seen_sig.add((f["kind"], "reported"))
     if not found and value_diffs:
         report_value_diffs(chk, value_diffs)
         found += 1
@@ -897,10 +1112,17 @@ def run(chk: Check) -> int:
                 f"re-encodings, non-BMP, homoglyphs; {len(kc.USTRS)} strings in {len(kc.TEXT_FAMILIES)} families), one group per member, as a direct argument, second argument, *args "
                 "item, 1-tuple, default value, UTF-8 bytes (inside the separation domain: all pairs of one family must get different keys) and as "
                 "an item of longer tuples, a dict value, a **kwargs value, nested, a key-context value (compared with the model); the same strings "
-                "are 30% of the str / bytes draws of the generated stream and the preferred one-place mutants of each other. "
+                "are 30% of the str / bytes draws of the generated stream and the preferred one-place mutants of each other; "
+                "a fixed name stream: a receiver (self / cls / none) followed by parameters named with every piece of 'self' and 'cls', names extending "
+                "them and prefixes of each other, and parameters named template / values / format_string, through noself(cache)(..), plain cache(..) and "
+                "get_cache_key with and without an exclusion (40% of the generated signatures draw their names from the same pool, 20% start with "
+                "a receiver, most of those are also run through noself, some with the decorator object first applied to a sibling function); "
+                "a fixed overlap stream: methods on two receivers and plain functions through cache / early / soft, plain and through noself, "
+                "generated / explicit templates, with / without prefix - every two groups and two forms of one group are run as a pair of "
+                "overlapping calls (the first parked inside the function body), and so are half of the decorated scalar cases of the generated stream. "
                 "A case is non-trivial iff it compared at least two call forms of one "
                 "bound tuple, checked a separation pair inside the stated domain, took the keyword-only path with defaults applied, the raw-kwargs "
-                "fallback, the formatter's slow path, a TypeError from bind, or a decorated cache hit; distinct = distinct case contents",
+                "fallback, the formatter's slow path, a TypeError from bind, a decorated cache hit, or ran a pair of overlapping calls; distinct = distinct case contents",
         "exhaustive": True,
         "exhaustive_subspace": ("all %d signature shapes with <= 4 parameters (default values, argument values and explicit templates are sampled); "
                                 "all 256 one-byte bytes values for the rendering; all pairs inside each of the %d look-alike text families at "
